@@ -1,6 +1,7 @@
 import WK.Proofs.C37_pool
 import WK.Proofs.C37_wq
 import WK.Proofs.C37_mb
+import WK.Proofs.C37_drain
 /-
   C37 — Work queues run each accepted task exactly once.
 
@@ -293,6 +294,11 @@ theorem c37_single_drain_per_shard (cfg : MBCfg) {s : MB} (r : MBReach cfg s) (i
   refine r.inv.gUnique i j ?_ ?_ hs
   · intro h; rw [h] at hi; cases hi
   · intro h; rw [h] at hj; cases hj
+
+/-- … and the judge's log-level clause: in every model log no shard has two handler batches open -/
+theorem c37_single_drain_log (cfg : MBCfg) {s : MB} (r : MBReach cfg s) : singleDrain s.log = true := by
+  obtain ⟨act, h, _⟩ := r.drainInv
+  simp [singleDrain, h]
 
 /-- the mailbox with the repaired finishShardDrain waits -/
 theorem c37_mailbox_repaired_close_waits (cfg : MBCfg) (hr : cfg.repaired = true) {s : MB} (r : MBReach cfg s) :
